@@ -140,7 +140,11 @@ func maskUnmarshalText[T ~int32](mask *T, tag int, text string) error {
 		var parsed int64
 		var err error
 		if strings.HasPrefix(part, "0x") || strings.HasPrefix(part, "0X") {
-			parsed, err = strconv.ParseInt(part[2:], 16, 32)
+			// Hexadecimal flags cover the whole 32 bits: 0x80000000 (what MarshalText writes for bit 31) must be readable.
+			var u uint64
+			u, err = strconv.ParseUint(part[2:], 16, 32)
+			//nolint:gosec // reinterpreting the 32 bits of the mask is intended
+			parsed = int64(int32(uint32(u)))
 		} else {
 			parsed, err = strconv.ParseInt(part, 10, 32)
 			if err != nil {
